@@ -132,6 +132,7 @@ func (s *childState) twinRound(hosts []*Host, w, r int, fam string, byFamily map
 	g := NewGen(rnd, []string{ns})
 	g.AvoidKinds = s.avoidKinds()
 	g.Dict = append(append([]string(nil), conf.Dict.Strict...), conf.Dict.Loose...)
+	g.Delims = conf.Delims
 	a := &twinSide{h: hosts[0], kvn: hosts[0].Node(ns, 0)}
 	b := &twinSide{h: hosts[1], kvn: hosts[1].Node(ns, 0)}
 	if a.kvn == nil || b.kvn == nil {
